@@ -153,7 +153,8 @@ class LearnRun:
         if not self.subsets or n < 2:
             return [], False
         import itertools
-        if n <= self.subsets.get("all_upto", 0) and first_k:
+        det = self.subsets.get("deterministic_names")
+        if n <= self.subsets.get("all_upto", 0) and first_k and (det is None or self.named[di][0] in det):
             return [c for m in range(1, n) for c in itertools.combinations(range(n), m)], True
         r = rng(self.seed, "subsets", self.named[di][0], k)
         out = set()
